@@ -18,7 +18,10 @@ THEOREMS = [
 ]
 RULE = ('every call of the real _make_fst_and_dedent made while copy()/get_slice()/cut()/view.copy() run on sampled nodes '
         'and on every slice [i:j] (bounded) of every list field of corpus programs (hand snippets, generated programs, '
-        'layout/comment/paren mutations, stdlib chunks) with trivia/pars/norm/docstr varied is recorded by a harness-side '
+        'layout/comment/paren mutations, stdlib chunks, generated programs with multi-line str/bytes/raw/f-string '
+        'literals as statements / values / arguments in blocks 1-3 deep, and generated programs with statements and '
+        'first-of-block def/class followed by blank and comment-only lines) with trivia (incl. +N / + / -N suffixes)/pars/'
+        'norm/docstr varied is recorded by a harness-side '
         'wrapper (arguments before, new lines + every node position + source lines/positions after) and replayed through '
         'the Lean model; _dedent_lns/_indent_lns are additionally called directly on whole programs with assorted '
         'indent strings. The same executions are judged by CPython (ast.parse of the returned source, ast.dump before/'
@@ -35,6 +38,9 @@ TRUSTED = [
     'sweep exclusions: parse-on-its-own is not demanded for pars=False and for 0/1-element expression-like slice results '
     'under norm=False (both documented as possibly invalid); virtual fields (_all, _body, _args, ...) are reached only '
     'through Dict; one-element BoolOp/Compare/MatchOr slices are not compared structurally (normalised to the element)',
+    'literal values: every str/bytes constant of CPython\'s parse of the returned source is compared with the original; '
+    'only str constants standing alone as an expression statement are compared modulo blanks (documented docstring '
+    're-indentation); the lines the dedent may touch inside string tokens are limited to those same constants per case',
     'token conservation counts identifiers, numbers, strings (modulo re-indentation of continuation lines), f-string '
     'middles and comments; keywords (except True/False/None) and the word `set` are structure the move may add or drop',
     'recorded calls whose put_loc has end before start (finding C07-F1) lie outside the model domain (natural-number '
@@ -45,7 +51,9 @@ ASSUMPTIONS = ['one copy/cut call is one atomic step',
                'by C11 on every real tree']
 
 TRIVIA = [True, False, 'all', 'block', 'none', (), ('all', 'all'), ('block', 'all'), (False, 'line'), ('none', 'block'),
-          'all+', 'block+1', ('all', 'block+'), ('block-', 'line-'), ('none', 'none')]
+          'all+', 'block+1', ('all', 'block+'), ('block-', 'line-'), ('none', 'none'),
+          (True, 'line+'), (True, 'line+1'), (True, 'line+2'), (True, 'line-2'), ('none', 'line+3'), (False, 'block+1'),
+          ('block', 'all+1'), ('all-1', 'all-'), (True, 'none+2'), ('block+1', 'line-1'), ('+', '+'), ('-1', '+2'), ('line+',)]
 PARS = [True, False, 'auto', 'auto']
 NORM = [True, True, False]
 DOCSTR = [True, False, 'strict']
@@ -155,6 +163,21 @@ def run_op(src, op, opts):
                          else ops.norm_dump(e, docstr) for e in el]
         except Exception:
             orig_dump = None
+    orig_lits = None
+    try:
+        if op[0] == 'copy':
+            orig_lits = ops.literal_bag(t.a, docstr)
+        elif op[2] is not None and t.a.__class__.__name__ not in ('JoinedStr', 'TemplateStr'):
+            w = ast.Module(body=[], type_ignores=[])
+            els = getattr(t.a, op[2])[op[3]:op[4]]
+            if all(isinstance(e, ast.stmt) for e in els):
+                w.body = els
+                orig_lits = ops.literal_bag(w, docstr)
+            else:
+                import collections as _c
+                orig_lits = sum((ops.literal_bag(e, False) for e in els if e is not None), _c.Counter())
+    except Exception:
+        orig_lits = None
     c = exc = None
     with ops.Recorder() as R:
         try:
@@ -238,6 +261,15 @@ def run_op(src, op, opts):
                                          f'and does not reparse on its own ({e!r}); src={csrc!r}'))
                 elif not exempt and node is None:
                     fail('unparsable', f'returned source does not reparse as {kind}: {e!r}; src={csrc!r}')
+    # (2b) every str / bytes literal of the returned SOURCE (read by CPython) has the value it had in the original; only
+    # genuine str docstring candidates may differ, by the documented re-indentation
+    if node is not None and orig_lits is not None and fld != 'fstring-piece':
+        got_lits = ops.literal_bag(node, docstr)
+        if got_lits != orig_lits:
+            miss = sorted((orig_lits - got_lits).items(), key=repr)[:3]
+            extra = sorted((got_lits - orig_lits).items(), key=repr)[:3]
+            fail('literal-value', f'string/bytes literals of the returned source do not have the values of the original: '
+                 f'original only {miss}, returned source only {extra}')
     # (3) structurally equal to the original sub-tree / sub-list
     if op[0] == 'copy':
         ca = c.a
@@ -315,7 +347,18 @@ def run_op(src, op, opts):
         if lost and all(k[0] == 'COMMENT' for k in lost) and not dup:
             whole = op[0] == 'slice' and op[3] == 0 and op[4] == len(_orig_elems(t.a, op[2], 0, None)) or \
                 op[0] == 'copy' and isinstance(getattr(t.parent.a, t.pfield.name), list) and len(getattr(t.parent.a, t.pfield.name)) == 1
-            if stmtlike and whole:
+            after = False
+            if stmtlike:
+                try:
+                    last = t.a if op[0] == 'copy' else getattr(t.a, op[2])[op[4] - 1]
+                    texts = {k[1] for k in lost}
+                    lns_ = [tk.start[0] for tk in util.tokens(src0) if tk.type == ops.tokenize.COMMENT and tk.string.rstrip() in texts]
+                    after = bool(lns_) and all(ln_ > last.end_lineno for ln_ in lns_)
+                except Exception:
+                    after = False
+            if after:
+                lab = 'stmtlike'
+            elif stmtlike and whole:
                 lab = f'{(op[2] if op[0] == "slice" else t.pfield.name)}-emptied'
             elif op[0] == 'copy' and not stmtlike:
                 lab = 'exprlike-element'
@@ -323,9 +366,9 @@ def run_op(src, op, opts):
                 lab = 'exprlike-slice'
             else:
                 lab = fld
-            out['fails'].append((f'C07|cut{"" if op[0] == "copy" else "_slice"}|{lab}|comment-lost',
-                                 f'comments of the original in neither remainder nor piece: {sorted(lost.items())[:5]}; '
-                                 f'piece {cc.src!r}'))
+            out['fails'].append((f'C07|cut{"" if op[0] == "copy" else "_slice"}|{lab}|comment-lost{"-after" if after else ""}',
+                                 f'comments {"that follow the cut statement(s) " if after else ""}of the original in neither '
+                                 f'remainder nor piece: {sorted(lost.items())[:5]}; piece {cc.src!r}'))
             lost = None
         if lost:
             failc('token-lost', f'tokens of the original in neither remainder nor piece: {sorted(lost.items())[:5]}')
@@ -418,6 +461,7 @@ def _dent_case(arg):
             lines = [str(l) for l in root._lines]
             tree, _ = util.ser_tree(root.a)
             pos0 = util.positions(root.a)
+            doc0 = ops.doc_str_lns(root.a)
             del seen[:]
             try:
                 if which == 'indent':
@@ -441,6 +485,11 @@ def _dent_case(arg):
                     problem = f'lines {sorted(set(str_lns) - cont)} excluded although they do not start inside a string'
                 elif cont is not None and docstr is False and set(range(skip, n)) & cont != set(str_lns):
                     problem = f'string continuation lines {sorted((set(range(skip, n)) & cont) - set(str_lns))} treated as indentable'
+                elif cont is not None:
+                    must = (set(range(skip, n)) & cont) - doc0
+                    if not must <= set(str_lns):
+                        problem = (f'lines {sorted(must - set(str_lns))} start inside a string/bytes/f-string token that is not '
+                                   f'a str expression statement but were treated as indentable (docstr={docstr!r})')
             case = {'f': 'C07.' + which, 'lines': lines, 'tree': tree, 'indent': ind, 'skip': skip, 'str_lns': str_lns}
             impl = {'lines': [str(l) for l in root._lines], 'pos': util.positions(root.a)}
             out.append((case, impl, problem))
@@ -470,6 +519,94 @@ def _dent_case(arg):
 
 _CACHE = {}
 
+_LIT_BODIES = ['one\n{i}two', 'MAGIC\n{i}line two\n{i}  line three', 'a\n\n{i}b\n', 'x\n  y\n{i}z', 'é\n{i}\tü', '\n{i}q\n{i}']
+_BLOCKS = ['class K{n}:', 'def f{n}(self):', 'if c{n}:', 'for i{n} in x:', 'with a{n} as b{n}:', 'while w{n}:', 'try:']
+
+
+def gen_literal_program(rng):
+    """multi-line str / bytes / raw / f-string literals as bare expression statements (first = docstring position, and
+    later), assignment values, call arguments and return values, inside indented blocks 1-3 deep; continuation lines carry
+    assorted leading whitespace so that any dedent of them changes the value"""
+    depth = rng.randint(1, 3)
+    unit = rng.choice(['    ', '  ', '\t'])
+    lines = []
+    opened = []
+    for d in range(depth):
+        b = rng.choice(_BLOCKS if d else _BLOCKS[:3]).format(n=d)
+        lines.append(unit * d + b)
+        opened.append(b)
+    ind = unit * depth
+
+    def lit(kinds='sbrf'):
+        k = rng.choice(kinds)
+        q = rng.choice(['"""', "'''"])
+        body = rng.choice(_LIT_BODIES).format(i=rng.choice([ind, ind + '  ', unit * max(depth - 1, 0), ' ', '']))
+        pre = {'s': '', 'b': 'b', 'r': 'r', 'f': 'f'}[k]
+        if k == 'b':
+            body = body.encode('ascii', 'replace').decode().replace('?', 'e')
+        return pre + q + body + q
+
+    forms = ['{L}', '{L}', 'v = {L}', 'g({L}, {M})', 'return_ = [{L},\n' + ind + '   {M}]', 'w: t = {L}', 'v += {L} + {M}', 'assert {L}']
+    n = rng.randint(3, 6)
+    if rng.random() < 0.7:
+        lines.append(ind + lit('sb'))         # docstring position: str (genuine docstring) or bytes (not one)
+    for _ in range(n):
+        f = rng.choice(forms)
+        lines.append(ind + f.format(L=lit(), M=lit('sb')))
+        if rng.random() < 0.3:
+            lines.append(ind + '# c%d' % rng.randint(0, 9))
+    for d in range(depth - 1, -1, -1):
+        if opened[d] == 'try:':
+            lines.append(unit * d + 'finally:')
+            lines.append(unit * (d + 1) + 'pass')
+    return '\n'.join(lines) + '\n'
+
+
+def gen_comment_program(rng):
+    """statements (incl. def / class as FIRST statement of a block) followed by blank lines and comment-only lines that
+    belong to the next sibling: what a cut / delete with a trailing-space allowance may and may not take"""
+    unit = rng.choice(['    ', '  '])
+    depth = rng.randint(0, 2)
+    lines = []
+    for d in range(depth):
+        lines.append(unit * d + rng.choice(['class K%d:', 'def f%d():', 'if c%d:', 'for i%d in x:']) % d)
+        if rng.random() < 0.3:
+            lines.append(unit * (d + 1) + '"""doc %d"""' % d)
+    ind = unit * depth
+    k = 0
+    for j in range(rng.randint(2, 5)):
+        kind = rng.choice(['def', 'class', 'simple', 'simple', 'if']) if j else rng.choice(['def', 'class', 'def', 'simple', 'if'])
+        k += 1
+        if kind == 'def':
+            lines += [ind + 'def g%d():' % k, ind + unit + 'return %d' % k]
+        elif kind == 'class':
+            lines += [ind + 'class C%d:' % k, ind + unit + 'a%d = %d' % (k, k)]
+        elif kind == 'if':
+            lines += [ind + 'if t%d:' % k, ind + unit + 'u%d = %d' % (k, k)]
+        else:
+            lines.append(ind + 's%d = %d' % (k, k) + ('  # tail %d' % k if rng.random() < 0.3 else ''))
+        for _ in range(rng.choice([0, 0, 1, 1, 2, 3])):
+            lines.append('')
+        for m in range(rng.choice([0, 1, 1, 2])):
+            lines.append((ind if rng.random() < 0.8 else '') + '# about the next one %d.%d' % (k, m))
+            if rng.random() < 0.25:
+                lines.append('')
+    lines.append(ind + 'last = 0')
+    return '\n'.join(lines) + ('\n' if rng.random() < 0.85 else '')
+
+
+def _special_programs(ctx, n):
+    rng = random.Random(ctx.rng.random())
+    out = []
+    for i in range(n):
+        src = gen_literal_program(rng) if i % 2 == 0 else gen_comment_program(rng)
+        try:
+            ast.parse(src)
+        except SyntaxError:
+            continue
+        out.append(src)
+    return out
+
 
 def _programs(ctx, n, stdlib):
     rng = random.Random(ctx.rng.random())
@@ -477,6 +614,11 @@ def _programs(ctx, n, stdlib):
 
 
 EXTRA = [
+    'class Codec:\n    T = 1\n\n    def header(self):\n        x = 1\n        b"""MAGIC\n        line two\n          line three"""\n        blob = b"""one\n        two"""\n        return blob, x\n',
+    'def f():\n    b"""not a\n    docstring"""\n    """a str\n      statement"""\n    g(b"""x\n    y""", """p\n    q""")\n',
+    'def first():\n    return 1\n# second() is the important one\ndef second():\n    return 2\n\nx = second()\n',
+    'if cond:\n    setup = 1\n\n    # why we need the lock\n    lock = acquire()\n    use(lock)\n',
+    'class K:\n    def a(self):\n        pass\n    # about b\n    def b(self):\n        pass\n',
     'class C:\n    def f(self):\n        """doc\n        string"""\n        x = [a,  # c\n             b + """s\n  t""",\n             c]\n        if x:\n            pass\n        elif y: z = (1,\n  2)\n',
     'if a:\n    # pre\n    x = (1,)  # tail\n    # post\n\n    y = {1}\n    z = f"""a\n  {b}\n c"""\nelif b:\n    i = [\n  1,\n        2]\nelse:\n    t = a,\n',
     'def f():\n\tx = "é", ü  # ç\n\tif x:\n\t\treturn [é,\n ü]\n',
@@ -493,8 +635,9 @@ def _run_all(ctx):
     if key in _CACHE:
         return _CACHE[key]
     q = ctx.quick
-    progs = EXTRA + _programs(ctx, 140 if q else 1500, 12 if q else 200)
-    res = pmap(_prog_case, [(p, ctx.rng.randrange(1 << 30), 60 if i < len(EXTRA) else (10 if q else 24))
+    special = EXTRA + _special_programs(ctx, 40 if q else 400)
+    progs = special + _programs(ctx, 140 if q else 1500, 12 if q else 200)
+    res = pmap(_prog_case, [(p, ctx.rng.randrange(1 << 30), (60 if q else 40) if i < len(special) else (10 if q else 24))
                             for i, p in enumerate(progs)])      # the hand-written layout programs get (nearly) all their ops
     items = [it for lst in res if lst for it in lst]
     _CACHE.clear()
